@@ -100,7 +100,12 @@ func (c *queueClass_[V]) MakeFromArray(values []V) QueueLike[V] {
 }
 
 func (c *queueClass_[V]) MakeFromSequence(values Sequential[V]) QueueLike[V] {
-	var queue = c.Make()
+	// Make room for all of the initial values so that adding them cannot block.
+	var capacity = c.defaultCapacity_
+	if uint(values.GetSize()) > capacity {
+		capacity = uint(values.GetSize())
+	}
+	var queue = c.MakeWithCapacity(capacity)
 	var iterator = values.GetIterator()
 	for iterator.HasNext() {
 		var value = iterator.GetNext()
